@@ -13,7 +13,11 @@ SB = {'SB_Diamond': {'0': [], '1': [], '2': [1], '3': [1], '4': [2, 3]},
       'SB_Chain2': {'0': [], '1': [], '2': [1]},
       'SB_One': {'0': [], '1': []}}
 PB_FORK = [[], [1], [1]]
-RB = {'RB_One': [[]], 'RB_Two': [[], [1]], 'RB_None3': [[], [], []],
+PB = {'PB_Fork': PB_FORK, 'PB_Tree4': [[], [1], [1], [2]]}
+SB['SB_Three'] = {'0': [], '1': [], '2': [1], '3': []}
+RB = {'RB_None5': [[], [], [], [], []],
+      'RB_Diamond5': [[], [], [2], [2], [3, 4]],
+      'RB_One': [[]], 'RB_Two': [[], [1]], 'RB_None3': [[], [], []],
       'RB_None4': [[], [], [], []], 'RB_Chain3': [[], [1], [2]]}
 
 BASE = dict(NS=4, NG=1, PBases='<-PB_Fork', Names='<-NamesEN',
@@ -51,6 +55,25 @@ CHAIN = cfgd(NS=1, NG=3, InitSBases='<-SB_One', InitRBases='<-RB_None3',
              SubKeys='<-SubKeysChain', LookKeys='<-LookKeysChain',
              RBaseChoices='<-RBaseChoices3s', MaxLive=2, MaxDepth=5)
 
+EXT = cfgd(NS=1, InitSBases='<-SB_One', PBases='<-PB_Tree4', Names='<-NamesE',
+           Muts='{"reg","unreg"}', RegKeys='<-RegKeysExt',
+           LookKeys='<-LookKeysExt', MaxLive=4, MaxDepth=5)
+WATCH = cfgd(NS=3, InitSBases='<-SB_Three', Names='<-NamesE',
+             Muts='{"reg","sub","specbases"}',
+             Queries='{"lookup","lookupAll","subs"}',
+             RegKeys='<-RegKeysWatch', SubKeys='<-SubKeysWatch',
+             LookKeys='<-LookKeysWatch', SBaseChoices='<-SBaseChoicesWatch',
+             MaxLive=2, MaxDepth=6)
+DIAMOND = cfgd(NS=1, NG=5, InitSBases='<-SB_One', InitRBases='<-RB_Diamond5',
+               Names='<-NamesE', Muts='{"reg","unreg","regbases"}',
+               Queries='{"lookup"}', RegKeys='<-RegKeysDiamond',
+               LookKeys='<-LookKeysChain', MaxLive=2, MaxDepth=4,
+               RBaseChoices='<-RBaseChoicesDiamond')
+SUBCACHE = cfgd(NS=1, NG=2, InitSBases='<-SB_One', InitRBases='<-RB_Two',
+                Names='<-NamesE', Muts='{"sub","unsub"}', Queries='{"subs"}',
+                SubKeys='<-SubKeysSubCache', LookKeys='<-LookKeysSubCache',
+                ValMode='"any"', EqClass='<-Eq12', MaxLive=3, MaxDepth=5)
+
 INVS = ['TypeOK', 'ExtOK', 'InvWalkIsBest', 'InvEntryPointsAgree',
         'InvSubsExact', 'CacheTransparent', 'RoIsFresh']
 
@@ -64,8 +87,12 @@ PLAN = {
                                                absent=True, noise=True)),
             ('order-sim', 'sim', dict(ORDER, MaxLive=5),
              dict(sb='SB_Diamond', rb='RB_One', num=200, depth=15)),
+            ('extendors d5', 'edges', EXT,
+             dict(sb='SB_One', rb='RB_One', pb='PB_Tree4')),
         ],
         'thorough': [
+            ('extendors d7', 'edges', dict(EXT, MaxDepth=7),
+             dict(sb='SB_One', rb='RB_One', pb='PB_Tree4')),
             ('order<=3', 'states', dict(ORDER, MaxLive=3),
              dict(sb='SB_Diamond', rb='RB_One', absent=True, noise=True)),
             ('order-sim', 'sim', dict(ORDER, MaxLive=6),
@@ -77,12 +104,19 @@ PLAN = {
              dict(sb='SB_Diamond', rb='RB_Two')),
             ('subs-sim', 'sim', dict(SUBS, MaxLive=5),
              dict(sb='SB_Diamond', rb='RB_Two', num=200, depth=15)),
+            ('subcache d5', 'edges', SUBCACHE,
+             dict(sb='SB_One', rb='RB_Two', eq12=True)),
         ],
         'thorough': [
             ('subs<=3', 'states', dict(SUBS, MaxLive=3),
              dict(sb='SB_Diamond', rb='RB_Two')),
             ('subs-sim', 'sim', dict(SUBS, MaxLive=6),
              dict(sb='SB_Diamond', rb='RB_Two', num=5000, depth=20)),
+            ('subcache d7', 'edges', dict(SUBCACHE, MaxDepth=7, MaxLive=4),
+             dict(sb='SB_One', rb='RB_Two', eq12=True)),
+            ('subcache verify d6', 'edges',
+             dict(SUBCACHE, MaxDepth=6, Flavour='"verify"'),
+             dict(sb='SB_One', rb='RB_Two', eq12=True)),
         ]},
     'C09': {
         'quick': [
@@ -108,6 +142,8 @@ PLAN = {
             ('cache d4 verify', 'edges', dict(CACHE, MaxDepth=4,
                                               Flavour='"verify"'),
              dict(sb='SB_Chain2', rb='RB_Two')),
+            ('watch d6 push', 'edges', WATCH,
+             dict(sb='SB_Three', rb='RB_One')),
             ('cache-sim', 'sim', dict(CACHE, MaxLive=4, MaxDepth=100),
              dict(sb='SB_Chain2', rb='RB_Two', num=150, depth=30)),
             ('cache-sim verify', 'sim', dict(CACHE, MaxLive=4, MaxDepth=100,
@@ -120,6 +156,11 @@ PLAN = {
             ('cache d7 verify', 'edges', dict(CACHE, MaxDepth=7,
                                               Flavour='"verify"'),
              dict(sb='SB_Chain2', rb='RB_Two')),
+            ('watch d7 push', 'edges', dict(WATCH, MaxDepth=7),
+             dict(sb='SB_Three', rb='RB_One')),
+            ('watch d7 verify', 'edges', dict(WATCH, MaxDepth=7,
+                                              Flavour='"verify"'),
+             dict(sb='SB_Three', rb='RB_One')),
             ('cache-sim', 'sim', dict(CACHE, MaxLive=4, MaxDepth=100),
              dict(sb='SB_Chain2', rb='RB_Two', num=5000, depth=40)),
             ('cache-sim verify', 'sim', dict(CACHE, MaxLive=4, MaxDepth=100,
@@ -139,6 +180,8 @@ PLAN = {
              dict(CHAIN, InitRBases='<-RB_Chain3', MaxDepth=4,
                   Flavour='"verify"'),
              dict(sb='SB_One', rb='RB_Chain3')),
+            ('diamond5 d4 push', 'edges', DIAMOND,
+             dict(sb='SB_One', rb='RB_Diamond5')),
         ],
         'thorough': [
             ('chain d6 push', 'edges',
@@ -155,6 +198,14 @@ PLAN = {
              dict(CHAIN, InitRBases='<-RB_Chain3', MaxDepth=6,
                   Flavour='"verify"'),
              dict(sb='SB_One', rb='RB_Chain3')),
+            ('diamond5 d6 push', 'edges', dict(DIAMOND, MaxDepth=6),
+             dict(sb='SB_One', rb='RB_Diamond5')),
+            ('diamond5 d5 verify', 'edges',
+             dict(DIAMOND, MaxDepth=5, Flavour='"verify"'),
+             dict(sb='SB_One', rb='RB_Diamond5')),
+            ('diamond5 from scratch d7 push', 'edges',
+             dict(DIAMOND, MaxDepth=7, InitRBases='<-RB_None5', MaxLive=1),
+             dict(sb='SB_One', rb='RB_None5')),
             ('chain4 sim push', 'sim',
              dict(CHAIN, NG=4, InitRBases='<-RB_None4',
                   RBaseChoices='<-RBaseChoices4', MaxLive=4, MaxDepth=100),
@@ -193,7 +244,8 @@ def run_replay(build, v, pid, consts, opt, mode, cases, budget):
         for li, leaf_impl in enumerate((False, True)):
             for si, sh in enumerate(shard(cases, max(1, NCPU // 4))):
                 job = {'flavour': flavour_of(consts), 'sbases': SB[opt['sb']],
-                       'pbases': PB_FORK, 'rbases': RB[opt['rb']],
+                       'pbases': PB[opt.get('pb', 'PB_Fork')],
+                       'rbases': RB[opt['rb']],
                        'leaf_impl': leaf_impl, 'mode': mode, 'cases': sh,
                        'seed': seed() * 1000 + si}
                 if opt.get('eq12'):
